@@ -142,6 +142,22 @@ type runner struct {
 	bdb  *beaconsqlite.Backend
 	n    int
 	uses int
+	tx   pathdb.Transaction // open path-DB transaction (all operations go through it)
+}
+
+// rw is what path-DB operations are executed on: the open transaction, else the backend.
+func (r *runner) rw() pathdb.ReadWrite {
+	if r.tx != nil {
+		return r.tx
+	}
+	return r.pdb
+}
+
+// endTx commits a transaction a history left open (logged like any other operation).
+func (r *runner) endTx() {
+	if r.tx != nil {
+		r.exec(step{"op": "txc"})
+	}
 }
 
 var dbSeq int
@@ -233,14 +249,14 @@ func (r *runner) exec(s step) {
 		var st pathdb.InsertStats
 		var err error
 		if geti(s, "plain") == 1 {
-			st, err = r.pdb.Insert(ctx, meta)
+			st, err = r.rw().Insert(ctx, meta)
 			groups = []int{0}
 		} else {
 			real := make([]uint64, 0, len(groups))
 			for _, g := range groups {
 				real = append(real, groupTab[g])
 			}
-			st, err = r.pdb.InsertWithHPGroupIDs(ctx, meta, real)
+			st, err = r.rw().InsertWithHPGroupIDs(ctx, meta, real)
 		}
 		r.w.Emit(vt.M{"ev": "pins", "p": p, "type": typ, "groups": groups, "ins": st.Inserted,
 			"upd": st.Updated, "err": errStr(err)})
@@ -279,9 +295,9 @@ func (r *runner) exec(s step) {
 		var res query.Results
 		var err error
 		if params == nil && geti(s, "getall") == 1 {
-			res, err = r.pdb.GetAll(ctx)
+			res, err = r.rw().GetAll(ctx)
 		} else {
-			res, err = r.pdb.Get(ctx, params)
+			res, err = r.rw().Get(ctx, params)
 		}
 		out := []vt.M{}
 		for _, x := range res {
@@ -296,18 +312,18 @@ func (r *runner) exec(s step) {
 			"ends": getl(f, "ends")}, "res": out, "err": errStr(err)})
 	case "pdel":
 		hexs, abs := r.prefix(geti(s, "of"), geti(s, "len"))
-		err := r.pdb.DeleteSegment(ctx, hexs)
+		err := r.rw().DeleteSegment(ctx, hexs)
 		r.w.Emit(vt.M{"ev": "pdel", "pre": abs, "err": errStr(err)})
 	case "pexp":
-		n, err := r.pdb.DeleteExpired(ctx, at(geti(s, "now")))
+		n, err := r.rw().DeleteExpired(ctx, at(geti(s, "now")))
 		r.w.Emit(vt.M{"ev": "pexp", "now": geti(s, "now"), "ret": n, "err": errStr(err)})
 	case "nqins":
 		t := segpool.Base.Add(time.Duration(geti(s, "t")) * time.Millisecond)
-		ok, err := r.pdb.InsertNextQuery(ctx, segpool.IA(geti(s, "src")), segpool.IA(geti(s, "dst")), t)
+		ok, err := r.rw().InsertNextQuery(ctx, segpool.IA(geti(s, "src")), segpool.IA(geti(s, "dst")), t)
 		r.w.Emit(vt.M{"ev": "nqins", "src": geti(s, "src"), "dst": geti(s, "dst"), "t": geti(s, "t"),
 			"ret": ok, "err": errStr(err)})
 	case "nqget":
-		t, err := r.pdb.GetNextQuery(ctx, segpool.IA(geti(s, "src")), segpool.IA(geti(s, "dst")))
+		t, err := r.rw().GetNextQuery(ctx, segpool.IA(geti(s, "src")), segpool.IA(geti(s, "dst")))
 		has, abs := !t.IsZero(), 0
 		if has {
 			d := t.Sub(segpool.Base)
@@ -318,6 +334,25 @@ func (r *runner) exec(s step) {
 		}
 		r.w.Emit(vt.M{"ev": "nqget", "src": geti(s, "src"), "dst": geti(s, "dst"), "has": has, "t": abs,
 			"err": errStr(err)})
+
+	case "txb":
+		tx, err := r.pdb.BeginTransaction(ctx, nil)
+		if err == nil {
+			r.tx = tx
+		}
+		r.w.Emit(vt.M{"ev": "txb", "err": errStr(err)})
+	case "txc", "txr":
+		var err error
+		if r.tx == nil {
+			vt.Fatal("%s without open transaction", op)
+		}
+		if op == "txc" {
+			err = r.tx.Commit()
+		} else {
+			err = r.tx.Rollback()
+		}
+		r.tx = nil
+		r.w.Emit(vt.M{"ev": op, "err": errStr(err)})
 
 	case "bins":
 		p := geti(s, "p")
@@ -763,6 +798,10 @@ func main() {
 			for k := 0; k < *nq; k++ {
 				r.exec(g.query(r.kind))
 			}
+			r.endTx()
+			for _, o := range fullObs(r.kind) {
+				r.exec(o)
+			}
 			r.close()
 		}
 		f.Close()
@@ -827,6 +866,17 @@ func main() {
 			r.open(ntr, "rand")
 			n := 3 + g.rng.Intn(*maxLen-2)
 			for k := 0; k < n; k++ {
+				if kind == "p" && g.rng.Intn(8) == 0 {
+					switch {
+					case r.tx == nil:
+						r.exec(step{"op": "txb"})
+					case g.rng.Intn(2) == 0:
+						r.exec(step{"op": "txr"})
+						r.exec(step{"op": "pget", "all": 1})
+					default:
+						r.exec(step{"op": "txc"})
+					}
+				}
 				r.exec(g.mutator(kind))
 				switch g.rng.Intn(3) {
 				case 0:
@@ -842,6 +892,16 @@ func main() {
 			}
 			for k := 0; k < 4; k++ {
 				r.exec(g.query(kind))
+			}
+			if r.tx != nil {
+				if g.rng.Intn(2) == 0 {
+					r.exec(step{"op": "txr"})
+				} else {
+					r.exec(step{"op": "txc"})
+				}
+				for _, o := range fullObs(kind) {
+					r.exec(o)
+				}
 			}
 			r.close()
 		}
